@@ -41,6 +41,9 @@ var realRules = []faultRule{
 	{"integer divide by zero", "int-divide-by-zero"},
 	{"negative shift amount", "negative-shift"},
 	{"reflect:", "reflect"},
+	{"invalid number base", "library-panic"}, // math/big refusing a radix slip handed on unchecked
+	{"negative Repeat count", "library-panic"},
+	{"Repeat output length overflow", "library-panic"},
 	{"runtime error:", "runtime-other"},
 }
 
